@@ -59,10 +59,93 @@ def common_rules(u, linked_list=(1, 99)):
 def header_contracts(u, props_dec):
     """Contracts of the header helpers the decoder depends on."""
     u.rule('R5:from_be_bytes', r'u16::from_be_bytes\(id_bytes\)', 'u16_from_be_bytes(id_bytes)', 1)
-    u.rule('R2:assert_eq', r'assert_eq!\(0xF0 & tkl, 0\);', 'assert(0xF0 & tkl == 0);', (0, 1))
+    u.rule('R2:assert_eq', r'assert_eq!\(((?:0xF0 & tkl|tkl & 0xF0)), 0\);', r'assert(\1 == 0);', (0, 1))
     u.contract(('impl Header', 'from_raw'),
                '        ensures r.ver_type_tkl == raw.ver_type_tkl, r.code == class_of_u8(raw.code), r.message_id == raw.message_id',
                props=props_dec)
     u.contract(('impl Header', 'get_token_length'),
                '        ensures r as int == (self.ver_type_tkl as int) % 16', props=props_dec)
-    u.body_start(('impl Header', 'get_token_length'), '        proof { lemma_nibbles(self.ver_type_tkl); }')
+    header_bit_hints(u, 'impl Header', fns=('get_token_length',))
+
+
+# ---- bit-field hints generated from the code's own expressions ---------------------------------------------------------
+# The header setters/getters are one or two lines of mask-and-shift arithmetic.  Their contracts speak about x / 64,
+# (x / 16) % 4 and x % 16; the bridge to the code's bit operations is a `by (bit_vector)` fact.  To keep a harmless edit
+# (commuted operands, another but equivalent mask-and-shift form, a renamed or inlined local) from failing a fact about
+# the OLD expression, the facts are stated about the expression found in the code: locals defined by plain expressions are
+# substituted, `self.ver_type_tkl` becomes x.  A wrong expression then fails its own fact (a named obligation).
+def _fn_text(u, fnref):
+    s, p, bo, bc = u._fn_span(fnref)
+    return u.text[bo + 1:bc]
+
+
+def _subst_locals(expr, body):
+    lets = re.findall(r'let\s+(\w+)(?:\s*:\s*\w+)?\s*=\s*([^;{}]+);', body)
+    for _ in range(4):
+        for name, val in lets:
+            expr = re.sub(r'(?<![\w.])' + re.escape(name) + r'(?![\w(])', '(' + val.strip() + ')', expr)
+    return re.sub(r'self\s*\.\s*ver_type_tkl', 'x', expr)
+
+
+def header_bit_hints(u, H='impl Header', fns=('set_version', 'get_version', 'set_type', 'get_type', 'set_token_length', 'get_token_length')):
+    from vf.rustsrc import ExtractError
+    have = lambda fn: re.search(r'fn\s+' + fn + r'\b', u.text) is not None
+    def assigned(fn):
+        body = _fn_text(u, (H, fn))
+        m = re.search(r'self\s*\.\s*ver_type_tkl\s*=\s*([^;]+);', body)
+        if not m:
+            raise ExtractError('unit %s: %s does not assign self.ver_type_tkl' % (u.name, fn))
+        return body, m
+    if 'set_version' in fns and have('set_version'):
+        body, m = assigned('set_version')
+        e = _subst_locals(m.group(1), body[:m.start()])
+        u.before((H, 'set_version'), r'self\s*\.\s*ver_type_tkl\s*=', '''        proof {
+            let x = self.ver_type_tkl;
+            assert(v < 4 ==> (%s) / 64 == v) by (bit_vector);
+            assert(v < 4 ==> ((%s) / 16) %% 4 == (x / 16) %% 4) by (bit_vector);
+            assert(v < 4 ==> (%s) %% 16 == x %% 16) by (bit_vector);
+        }''' % (e, e, e))
+    if 'set_type' in fns and have('set_type'):
+        body, m = assigned('set_type')
+        mt = re.search(r'let\s+(\w+)(?:\s*:\s*u8)?\s*=\s*match\s+t\b', body)
+        tl = mt.group(1) if mt else 'tn'
+        e = _subst_locals(m.group(1), re.sub(r'let\s+' + tl + r'\b[^;]*?=\s*match[^}]*\};', '', body[:m.start()], flags=re.S))
+        e = re.sub(r'(?<![\w.])' + re.escape(tl) + r'(?![\w(])', 'tn8', e)
+        u.before((H, 'set_type'), r'self\s*\.\s*ver_type_tkl\s*=', '''        proof {
+            let x = self.ver_type_tkl; let tn8: u8 = %s;
+            assert(tn8 <= 3 ==> ((%s) / 16) %% 4 == tn8) by (bit_vector);
+            assert(tn8 <= 3 ==> (%s) / 64 == x / 64) by (bit_vector);
+            assert(tn8 <= 3 ==> (%s) %% 16 == x %% 16) by (bit_vector);
+        }''' % (tl, e, e, e))
+    if 'set_token_length' in fns and have('set_token_length'):
+        body, m = assigned('set_token_length')
+        e = _subst_locals(m.group(1), body[:m.start()])
+        am = re.search(r'assert(?:_eq!)?\(\(?([^;]*?)\)?(?:, | == )0\);', body)
+        guard = _subst_locals(am.group(1), '') if am else '0xF0 & tkl'
+        u.body_start((H, 'set_token_length'), '        proof { assert(tkl < 16 ==> (%s) == 0) by (bit_vector); }' % guard)
+        u.before((H, 'set_token_length'), r'self\s*\.\s*ver_type_tkl\s*=', '''        proof {
+            let x = self.ver_type_tkl;
+            assert(tkl < 16 ==> (%s) %% 16 == tkl) by (bit_vector);
+            assert(tkl < 16 ==> (%s) / 64 == x / 64) by (bit_vector);
+            assert(tkl < 16 ==> ((%s) / 16) %% 4 == (x / 16) %% 4) by (bit_vector);
+        }''' % (e, e, e))
+    def returned(fn):
+        body = _fn_text(u, (H, fn))
+        body = re.sub(r'proof\s*\{[^{}]*(?:\{[^{}]*\}[^{}]*)*\}', '', body)     # hints already spliced
+        stmts = [x.strip() for x in body.strip().split(';')]
+        return body, stmts
+    if 'get_version' in fns and have('get_version'):
+        body, stmts = returned('get_version')
+        e = _subst_locals(stmts[-1], body)
+        u.body_start((H, 'get_version'), '        proof { let x = self.ver_type_tkl; assert((%s) == x / 64) by (bit_vector); }' % e)
+    if 'get_token_length' in fns and have('get_token_length'):
+        body, stmts = returned('get_token_length')
+        e = _subst_locals(stmts[-1], body)
+        u.body_start((H, 'get_token_length'), '        proof { let x = self.ver_type_tkl; assert((%s) == x %% 16) by (bit_vector); }' % e)
+    if 'get_type' in fns and have('get_type'):
+        body = _fn_text(u, (H, 'get_type'))
+        mm = re.search(r'match\s+(.+?)\s*\{', body, re.S)
+        if not mm:
+            raise ExtractError('unit %s: get_type has no match' % u.name)
+        e = _subst_locals(mm.group(1), body[:mm.start()])
+        u.body_start((H, 'get_type'), '        proof { let x = self.ver_type_tkl; assert((%s) == (x / 16) %% 4) by (bit_vector); assert((%s) <= 3) by (bit_vector); }' % (e, e))
